@@ -3,6 +3,7 @@
 
 use crate::props::gens::{ts, T0_MS};
 use crate::props::world::{self, DefaultState, InstrumentDef};
+use barter::engine::state::order::manager::OrderManager;
 use barter::{
     EngineEvent,
     engine::{
@@ -101,6 +102,11 @@ pub struct StrategyLog {
     pub disconnect_calls: Vec<ExchangeId>,
     pub trading_disabled_calls: u64,
     pub close_cid_counter: u64,
+    /// behaviour switch: the on-disconnect hook stops algorithmic trading (a common reaction)
+    pub disable_on_disconnect: bool,
+    /// behaviour switch: a close-positions command also cancels the resting orders of the
+    /// instruments in scope ("flatten")
+    pub close_also_cancels: bool,
 }
 
 #[derive(Debug, Clone)]
@@ -152,18 +158,30 @@ impl ClosePositionsStrategy for ScriptStrategy {
         InstrumentIndex: 'a,
     {
         let log: &'a Mutex<StrategyLog> = &self.log;
-        close_open_positions_with_market_orders(&self.id, state, filter, move |st| {
+        let (cancels, opens) = close_open_positions_with_market_orders(&self.id, state, filter, move |st| {
             let mut l = log.lock().unwrap();
             l.close_cid_counter += 1;
             ClientOrderId::new(format!("close-{}-{}", st.key.index(), l.close_cid_counter))
-        })
+        });
+        let mut cancels: Vec<OrderRequestCancel<ExchangeIndex, InstrumentIndex>> = cancels.into_iter().collect();
+        if self.log.lock().unwrap().close_also_cancels {
+            cancels.extend(state.instruments.orders(filter).flat_map(|orders| orders.orders()).filter_map(|order| order.to_request_cancel()));
+        }
+        (cancels, opens)
     }
 }
 
-impl<Clock, State, Txs, Risk> OnDisconnectStrategy<Clock, State, Txs, Risk> for ScriptStrategy {
+impl<Clock, Txs, Risk> OnDisconnectStrategy<Clock, DefaultState, Txs, Risk> for ScriptStrategy {
     type OnDisconnect = ExchangeId;
-    fn on_disconnect(engine: &mut Engine<Clock, State, Txs, Self, Risk>, exchange: ExchangeId) -> ExchangeId {
-        engine.strategy.log.lock().unwrap().disconnect_calls.push(exchange);
+    fn on_disconnect(engine: &mut Engine<Clock, DefaultState, Txs, Self, Risk>, exchange: ExchangeId) -> ExchangeId {
+        let stop = {
+            let mut log = engine.strategy.log.lock().unwrap();
+            log.disconnect_calls.push(exchange);
+            log.disable_on_disconnect
+        };
+        if stop {
+            engine.state.trading = TradingState::Disabled;
+        }
         exchange
     }
 }
